@@ -20,7 +20,7 @@ import re
 
 from featlib import walk, children, is_call
 
-PURE_VALUE_KINDS = ("Int", "Bool", "Ref", "Member", "This", "Cast", "Bin", "Un", "MCall", "Str", "Char", "Index", "Cond")
+PURE_VALUE_KINDS = ("Int", "Float", "Bool", "Ref", "Member", "This", "Cast", "Bin", "Un", "MCall", "Str", "Char", "Index", "Cond")
 PURE_LVALUE_KINDS = PURE_VALUE_KINDS + ("OpCall",)
 LVALUE_OPS = ("[]", "*", "->", "()")
 ACCESSOR_RE = re.compile(r"^(get_|at$|front$|back$|data$|operator\[\]$|operator\(\)$|operator->$|operator\*$|first$|second$|parser$|c_str$|size$|empty$|begin$|end$|cbegin$|cend$|find$)")
